@@ -3,7 +3,7 @@ from __future__ import annotations
 
 import ast
 
-from ..astutil import attr_chain, call_method, short, src, enum_member, kwarg, ancestors, flatten_boolop
+from ..astutil import attr_chain, call_method, short, src, enum_member, kwarg, ancestors, flatten_boolop, path_conditions
 from ..linear import Normaliser, Sym
 from ..model import walk_local, AnalysisError
 from ..report import Ctx
@@ -264,9 +264,36 @@ def _main_check(ctx: Ctx) -> None:
     after = [s for s in fi.node.body if s.lineno > track_loop.end_lineno]
     txt = "\n".join(src(s) for s in after)
     mg = next((s for s in after if isinstance(s, ast.For)), None)
-    ok = mg is not None and ".normalise()" in src(mg) and ".merge(" in src(mg) and "[1:]" in src(mg) and "[0]" in src(mg)
-    ctx.check(ok, "MERGE", f"{FN}: every group is normalised and merged into its first member", function=FN,
-              construct="group merge is not `first.merge(rest)` after normalising each member", message="", file=fi.file, node=mg or fi.node)
+    ok, why = False, "no loop over the groups after the track loop"
+    if mg is not None and isinstance(mg.target, ast.Name):
+        grp = mg.target.id
+        first, rest = set(), set()          # expressions / names that denote the group's first member and the remaining members
+        first.add(f"{grp}[0]")
+        rest.add(f"{grp}[1:]")
+        for a in ast.walk(mg):
+            if isinstance(a, ast.Assign) and len(a.targets) == 1:
+                t0, v0 = a.targets[0], a.value
+                if isinstance(t0, ast.Name) and src(v0) in first:
+                    first.add(t0.id)
+                if isinstance(t0, ast.Name) and src(v0) in rest:
+                    rest.add(t0.id)
+                if isinstance(t0, (ast.Tuple, ast.List)) and len(t0.elts) == 2 and isinstance(t0.elts[0], ast.Name) and isinstance(t0.elts[1], ast.Starred) \
+                        and isinstance(t0.elts[1].value, ast.Name) and src(v0) == grp:          # first, *others = group
+                    first.add(t0.elts[0].id)
+                    rest.add(t0.elts[1].value.id)
+        merges = [c for c in ast.walk(mg) if isinstance(c, ast.Call) and call_method(c)[1] == "merge"]
+        okm = len(merges) == 1 and src(call_method(merges[0])[0]) in first and len(merges[0].args) == 1 and src(merges[0].args[0]) in rest \
+            and not any(isinstance(a, (ast.If, ast.For, ast.While)) for a in ancestors(merges[0]) if a is not mg and any(a is x for x in ast.walk(mg)))
+        # every member normalised before the merge: a loop over the whole group calling .normalise() on its element
+        norm = [lp for lp in ast.walk(mg) if isinstance(lp, ast.For) and lp is not mg and src(lp.iter) == grp and isinstance(lp.target, ast.Name)
+                and any(isinstance(c, ast.Call) and call_method(c)[1] == "normalise" and src(call_method(c)[0]) == lp.target.id and not path_conditions(c, lp)
+                        for c in ast.walk(lp))]
+        okn = bool(norm) and bool(merges) and all(n_.end_lineno < merges[0].lineno for n_ in norm[:1])
+        ok = okm and okn
+        why = f"merge calls {[short(c, 60) for c in merges]}; per-member normalisation before it: {okn}"
+    ctx.check(ok, "MERGE", f"{FN}: every group is normalised member by member and merged into its first member", function=FN,
+              construct="group merge is not `first.merge(rest)` after normalising each member",
+              message=why + ": a member that is not normalised on its own lets its dangling or orphan events pair with another track's notes", file=fi.file, node=mg or fi.node)
     if mg is not None:
         tc = TypeCase(p, fi, set(), None)
         exits = tc.run_body(mg.body)
